@@ -38,7 +38,7 @@ def model_check(chk, depth, clauses, tag):
     checked on the emitted behaviours (emitted_behaviours)"""
     r = tlc.run('MC_PowerLedger', cfg_text=ledger_cfg(depth, clauses), timeout=3000, tag=f'{tag}-mc')
     chk.add_mc(f'MC_PowerLedger depth={depth} [{len(clauses)} clauses]', r)
-    for w in ('WitnessMuxAfterOps', 'WitnessNoiseInBand'):
+    for w in ('WitnessMuxAfterOps', 'WitnessNoiseInBand', 'WitnessInterleavedMux'):
         rw = tlc.run('MC_PowerLedger', cfg_text=ledger_cfg(4, [f'INVARIANT {w}']), timeout=600, tag=f'{tag}-witness')
         if rw.violated != w:
             raise Machinery(f'vacuous model: {w} is not reachable')
@@ -84,7 +84,7 @@ def ids_of(si):
 
 def apply_step(parts, step, variant):
     """drive the real objects through one model operation; returns the new list of spectra"""
-    from gnpy.core.info import demuxed_spectral_information, muxed_spectral_information
+    from gnpy.core.info import demuxed_spectral_information, muxed_spectral_information, select_channels
     op, j = step['op'], step['j']
     if op in ('Scale', 'AddASE', 'AddNLI'):
         si = parts[j - 1]
@@ -105,11 +105,15 @@ def apply_step(parts, step, variant):
         return parts
     if op == 'Demux':
         si = parts[0]
+        have = ids_of(si)
         out = []
-        for exp in step['parts']:                       # the model says which band comes first
+        for exp in step['parts']:                       # the model says which channels go where, selected ones first
             ids = [ch['id'] for ch in exp]
-            band = {'f_min': F1 + SPACING * (min(ids) - 1) - SPACING / 2, 'f_max': F1 + SPACING * (max(ids) - 1) + SPACING / 2}
-            out.append(demuxed_spectral_information(si, band))
+            if ids == list(range(min(ids), max(ids) + 1)):
+                band = {'f_min': F1 + SPACING * (min(ids) - 1) - SPACING / 2, 'f_max': F1 + SPACING * (max(ids) - 1) + SPACING / 2}
+                out.append(demuxed_spectral_information(si, band))          # a band
+            else:
+                out.append(select_channels(si, np.array([c in ids for c in have])))   # the complement of a band
         return out
     if op == 'Mux':
         return [muxed_spectral_information(list(parts))]
